@@ -386,3 +386,97 @@ func c6FuncChild(ctx *core.Ctx, req c6ChildReq) {
 		c6JudgeFuncSQL(ctx, f, t, outs[0], "sql_columns", sql, viol)
 	}
 }
+
+// ---- row-type order over bridge-evaluated column arithmetic ---------------------------------------------------
+//
+// `a` + `b` (back-quoted columns) and expr('a + b') are evaluated by the expression bridge, which decides per
+// row whether "+" is a concatenation.  The value for a row must not depend on which differently-typed rows
+// the same expression text saw before.  Every order gets its own column names, so the process-wide caches
+// (keyed by expression text) start empty for each order without needing a fresh process.
+
+func c06Order(ctx *core.Ctx) {
+	templates := []string{"SELECT `%[1]s` + `%[2]s` AS r, id FROM stream", "SELECT expr('%[1]s + %[2]s') AS r, id FROM stream",
+		"SELECT `%[1]s` - `%[2]s` AS r, id FROM stream", "SELECT `%[1]s` * 2 + `%[2]s` AS r, id FROM stream"}
+	kinds := []string{"text", "int", "float", "null", "mixed"}
+	mk := func(kind, a, b string, id int) Row {
+		switch kind {
+		case "text":
+			return Row{"id": id, a: "ab", b: "cd"}
+		case "int":
+			return Row{"id": id, a: 1, b: 2}
+		case "float":
+			return Row{"id": id, a: 1.5, b: 2.25}
+		case "null":
+			return Row{"id": id, a: nil, b: 3}
+		}
+		return Row{"id": id, a: "7", b: 2}
+	}
+	perms := [][]int{}
+	var rec func(cur []int, used int)
+	rec = func(cur []int, used int) {
+		if len(cur) == len(kinds) {
+			perms = append(perms, append([]int(nil), cur...))
+			return
+		}
+		for k := range kinds {
+			if used&(1<<k) == 0 {
+				rec(append(cur, k), used|1<<k)
+			}
+		}
+	}
+	rec(nil, 0)
+	ctx.Cases("order", len(templates), 4, func(ti int, r *rand.Rand) {
+		tpl := templates[ti]
+		// result of each row kind when it is the FIRST row its expression text ever sees
+		first := map[string]string{}
+		type obs struct {
+			order string
+			val   string
+		}
+		seen := map[string][]obs{}
+		for pi, perm := range perms {
+			a, b := fmt.Sprintf("oa%d_%d_%d", ctx.Seed, ti, pi), fmt.Sprintf("ob%d_%d_%d", ctx.Seed, ti, pi)
+			sql := fmt.Sprintf(tpl, a, b)
+			rows := make([]Row, len(perm))
+			names := make([]string, len(perm))
+			for i, k := range perm {
+				rows[i] = mk(kinds[k], a, b, i+1)
+				names[i] = kinds[k]
+			}
+			outs, err := c6Run(sql, rows, c6Rot(len(rows), 0))
+			if err != nil {
+				ctx.Count("order.execute_errors", 1)
+				continue
+			}
+			for i, k := range perm {
+				v := c6Canon(outs[i], "value", false)
+				if i == 0 {
+					if _, ok := first[kinds[k]]; !ok {
+						first[kinds[k]] = v
+					}
+				}
+				seen[kinds[k]] = append(seen[kinds[k]], obs{strings.Join(names, ","), v})
+			}
+		}
+		bad := 0
+		for kind, list := range seen {
+			want, ok := first[kind]
+			if !ok {
+				continue
+			}
+			for _, o := range list {
+				ctx.Count("order.pairs_compared", 1)
+				if o.val != want && bad == 0 {
+					bad++
+					ctx.Count("violations.invariance.history", 1)
+					ctx.Violate(core.Violation{Kind: "invariance.history",
+						Attrs: map[string]string{"mode": "row_type_order", "site": "select_bridge", "row": kind, "features": "arith"},
+						Detail: fmt.Sprintf("%s\n  a %s row gives %s when it is the first row the expression sees, but %s when the rows arrive in the order %s",
+							fmt.Sprintf(tpl, "a", "b"), kind, want, o.val, o.order),
+						Case: &c06HistCase{CaseRef: core.CaseRef{Stream: "order", Index: ti}, SQL: fmt.Sprintf(tpl, "a", "b"), Row: kind, Rots: o.order}})
+				}
+			}
+		}
+		ctx.Case("order|"+tpl, true, map[string]any{"stream": "order", "sql": fmt.Sprintf(tpl, "a", "b"), "orders": len(perms)})
+	})
+}
